@@ -290,14 +290,22 @@ def run_unit(name, tier, want_probe=True):
     run.unit = unit
     run.data = data
     enumerate_obligations(unit, run)
+    from concurrent.futures import ThreadPoolExecutor
+    pfut = None
+    pex = None
+    if want_probe:
+        punit, pdata = build_probe(name)
+        pex = ThreadPoolExecutor(max_workers=1)
+        pfut = pex.submit(run_verus, pdata, name + '_probe')
     res = run_verus(data, name)
     run.verus = res
     classify(unit, data, res['diags'], run)
     if res['rc'] != 0 and not res['diags']:
         run.frontend_errors.append('verus failed without diagnostics: ' + res.get('stderr_tail', ''))
+    if pfut is not None:
+        pres = pfut.result()
+        pex.shutdown()
     if want_probe and not run.frontend_errors:
-        punit, pdata = build_probe(name)
-        pres = run_verus(pdata, name + '_probe')
         hit = set()
         for d in pres['diags']:
             if d.get('level') == 'error' and 'assertion failed' in d.get('message', ''):
@@ -338,13 +346,21 @@ def main(argv):
     units = index['properties'][prop]['units']
     runs = []
     undecided = []
-    for u in units:
+    from concurrent.futures import ThreadPoolExecutor
+
+    def one(u):
         try:
-            runs.append(run_unit(u, tier))
+            return run_unit(u, tier)
         except AnchorLost as e:
-            undecided.append('%s: anchor lost: %s' % (u, e))
+            return '%s: anchor lost: %s' % (u, e)
         except extract.Unsupported as e:
-            undecided.append('%s: outside the extractor subset: %s' % (u, e))
+            return '%s: outside the extractor subset: %s' % (u, e)
+    with ThreadPoolExecutor(max_workers=min(8, max(1, len(units)))) as ex:
+        for res in ex.map(one, units):
+            if isinstance(res, str):
+                undecided.append(res)
+            else:
+                runs.append(res)
     import evidence
     return evidence.decide_and_report(prop, tier, seed, runs, undecided, load_known(), index, time.time() - t0)
 
